@@ -166,9 +166,21 @@ class EscapeAnalysis(RuleAnalysis):
                 tgt, val = n.targets[0].id, n.value
             elif isinstance(n, (ast.AnnAssign, ast.NamedExpr)) and isinstance(n.target, ast.Name) and n.value is not None:
                 tgt, val = n.target.id, n.value
+            if tgt is not None and isinstance(val, ast.Attribute) and isinstance(val.value, ast.Name) and val.value.id == fn.self_name and fn.cls is not None:
+                # a generator object parked in an attribute by this class (`self.x = gen` where gen = <generator function>(...))
+                g = self._attr_generator(fn.cls, val.attr)
+                if g is not None:
+                    self.gen_vars[tgt] = (g, g.cls)
+                continue
             if tgt is None or not isinstance(val, ast.Call):
                 continue
             f = val.func
+            if not (isinstance(f, ast.Name) and f.id in self.bindings) and not (isinstance(f, ast.Attribute) and isinstance(f.value, ast.Name) and f.value.id == fn.self_name):
+                # <receiver>.method(...) / function(...) resolving to generator function(s) of the repository
+                gens = [t for t in self.typer.call_targets(fn, val, dispatch=False) if isinstance(t, FunctionInfo) and not isinstance(t.node, ast.Lambda) and t.is_generator]
+                if len(gens) == 1:
+                    self.gen_vars[tgt] = (gens[0], gens[0].cls)
+                    continue
             if isinstance(f, ast.Name) and f.id in self.bindings:
                 g, gctx = self.bindings[f.id]
                 if g.is_generator:
@@ -187,6 +199,33 @@ class EscapeAnalysis(RuleAnalysis):
                         if names:
                             self.typed_locals[tgt] = names
         return [()]
+
+    def _attr_generator(self, cls: ClassInfo, attr: str):
+        """the generator function whose generator objects class `cls` stores in `self.<attr>` (None if not exactly one)"""
+        found = []
+        for m in cls.methods.values():
+            if isinstance(m.node, ast.Lambda) or m.self_name is None:
+                continue
+            local_gen = {}
+            for n in own_nodes(m.node):
+                tg = val = None
+                if isinstance(n, ast.Assign) and len(n.targets) == 1:
+                    tg, val = n.targets[0], n.value
+                elif isinstance(n, (ast.AnnAssign, ast.NamedExpr)) and n.value is not None:
+                    tg, val = n.target, n.value
+                if tg is None:
+                    continue
+                if isinstance(tg, ast.Name) and isinstance(val, ast.Call):
+                    gens = [t for t in self.typer.call_targets(m, val, dispatch=False) if isinstance(t, FunctionInfo) and not isinstance(t.node, ast.Lambda) and t.is_generator]
+                    if len(gens) == 1:
+                        local_gen[tg.id] = gens[0]
+            for n in own_nodes(m.node):
+                if isinstance(n, ast.Assign):
+                    for tg in n.targets:
+                        if isinstance(tg, ast.Attribute) and isinstance(tg.value, ast.Name) and tg.value.id == m.self_name and tg.attr == attr and isinstance(n.value, ast.Name) and n.value.id in local_gen:
+                            found.append(local_gen[n.value.id])
+        uniq = {g.qualname: g for g in found}
+        return next(iter(uniq.values())) if len(uniq) == 1 else None
 
     def resolve_handler_attr(self, fn, expr):
         if self.ctx is None:
